@@ -47,6 +47,8 @@ func cgBuild(id int, raw json.RawMessage) *Job {
 		isShared[c] = true
 	}
 	// the class declarations are spread over files as the layout says (default: KA and KB in types1.lua, KC in types2.lua)
+	// every second hierarchy is written without blank lines between the class blocks (one comment block holds several classes)
+	tight := hash64(string(raw), 7)%2 == 1
 	text := map[string]*strings.Builder{"types1.lua": {}, "types2.lua": {}, "types3.lua": {}}
 	lineNo := map[string]int{}
 	for _, c := range classes {
@@ -74,8 +76,10 @@ func cgBuild(id int, raw json.RawMessage) *Job {
 			d.fieldAt[fmt.Sprintf("%s:%d", f, lineNo[f])] = [2]string{c, "fshared"}
 			lineNo[f]++
 		}
-		sb.WriteString("\n")
-		lineNo[f]++
+		if !tight {
+			sb.WriteString("\n")
+			lineNo[f]++
+		}
 	}
 	d.files["types1.lua"] = text["types1.lua"].String()
 	d.files["types2.lua"] = text["types2.lua"].String()
